@@ -5,6 +5,6 @@ list="$@"; [ -z "$list" ] && list=$(ls)
 for d in $list; do
   [ -f $d/patch.diff ] || continue
   prop=$(jq -r .property $d/meta.json)
-  out=$(HEAD=6 CUT=230 /verif/tools/trymut.sh "$prop" /verif/seeded/$d/patch.diff 2>&1)
+  out=$(HEAD=60 CUT=230 /verif/tools/trymut.sh "$prop" /verif/seeded/$d/patch.diff 2>&1)
   if echo "$out" | grep -q "^VIOLATION"; then echo "== $d: CAUGHT"; echo "$out" | grep -E "VIOLATED|UNDECIDED|ANALYSIS" | head -3; else echo "== $d: MISSED ($(echo "$out" | head -1 | cut -c1-120))"; fi
 done
